@@ -99,11 +99,11 @@ impl Prop {
     /// Capacities covered by the sparse boundary space (`gen_enum::large`) on top of the exhaustive ones.
     pub fn large_caps(self, thorough: bool) -> Vec<usize> {
         let v: Vec<usize> = match (self, thorough) {
-            (Prop::C01 | Prop::C03 | Prop::C07 | Prop::C08 | Prop::C09 | Prop::C20, false) => vec![32, 33, 64, 65, 128, 129, 256, 1000],
-            (Prop::C01 | Prop::C03 | Prop::C07 | Prop::C08 | Prop::C09 | Prop::C20, true) => vec![17, 31, 32, 33, 64, 65, 100, 128, 129, 255, 256, 1000],
-            (Prop::C04 | Prop::C10 | Prop::C11 | Prop::C12, false) => vec![33, 64, 65, 256],
-            (Prop::C04 | Prop::C10 | Prop::C11 | Prop::C12, true) => vec![32, 33, 64, 65, 128, 129, 256, 1000],
-            (Prop::C05 | Prop::C06, false) => vec![33, 64, 65, 256],
+            (Prop::C01 | Prop::C03 | Prop::C07 | Prop::C08 | Prop::C09 | Prop::C20, false) => vec![19, 23, 29, 32, 33, 64, 65, 128, 129, 256, 1000],
+            (Prop::C01 | Prop::C03 | Prop::C07 | Prop::C08 | Prop::C09 | Prop::C20, true) => vec![17, 19, 23, 24, 29, 31, 32, 33, 64, 65, 100, 128, 129, 255, 256, 1000],
+            (Prop::C04 | Prop::C10 | Prop::C11 | Prop::C12, false) => vec![23, 33, 64, 65, 256],
+            (Prop::C04 | Prop::C10 | Prop::C11 | Prop::C12, true) => vec![19, 23, 29, 32, 33, 64, 65, 128, 129, 256, 1000],
+            (Prop::C05 | Prop::C06, false) => vec![23, 33, 64, 65, 256],
             (Prop::C05 | Prop::C06, true) => vec![32, 33, 64, 65, 128, 129, 256, 1000],
             _ => vec![],
         };
@@ -291,6 +291,17 @@ pub fn exec_item(prop: Prop, item: &Item) -> Result<ItemResult, (Case, String)> 
                     let o = run_case(&c, opts).map_err(|f| fail_of(&c, f))?;
                     runs.push((case_hash(&c), o.flags));
                     digest = digest.wrapping_mul(0x100000001b3) ^ o.digest;
+                    if c.n <= 6 || k <= 2 {
+                        // the same fault while the thread is already unwinding from an unrelated panic (the call is made
+                        // from a destructor): guards that consult `thread::panicking()` behave differently there
+                        let mut cu = c.clone();
+                        cu.unwinding = true;
+                        let ou = run_case(&cu, opts).map_err(|f| fail_of(&cu, f))?;
+                        runs.push((case_hash(&cu), ou.flags));
+                        if ou.digest != o.digest {
+                            return Err((cu, "the observable trace of this faulted history differs when the calls are made while the thread is already unwinding".to_string()));
+                        }
+                    }
                     if prop == Prop::C06 && *kind != FaultKind::Eq {
                         let pf = crate::plain_engine::run_plain_case(&c).map_err(|m| (c.clone(), m))?;
                         if pf & crate::plain_engine::PF_FAULT_FIRED != 0 {
